@@ -177,5 +177,9 @@ func racyVariable(fr frame) string {
 	if len(stmt) > 60 {
 		stmt = stmt[:60]
 	}
-	return short + "::" + strings.Join(strings.Fields(stmt), " ")
+	sig := strings.Join(strings.Fields(short+"::"+stmt), "_") // no blanks: known_findings.txt is split on white space
+	if len(sig) > 160 {
+		sig = sig[:160]
+	}
+	return sig
 }
